@@ -31,6 +31,507 @@ ASSUMPTIONS = ["np.linalg.eigvalsh returns ascending eigenvalues of the symmetri
                "numpy stacks a 3x3 list of arrays as (3,3,N); .T reverses all axes"]
 
 
+
+from ..absint import Domain, Interp, Seq
+
+
+class DegreeDomain(Domain):
+    """positive homogeneity degree of a value in the six stress components; "any" for a literal zero / zero buffer (zero is
+    homogeneous of every degree); None = unknown"""
+    KEEP = {"np.amax", "np.amin", "np.max", "np.min", "np.fabs", "np.abs", "abs", "np.absolute", "np.array", "np.asarray",
+            "np.sort", "np.squeeze", "np.transpose", "np.stack", "np.atleast_1d", "np.sum", "np.mean", "np.maximum",
+            "np.minimum", "np.where", "np.choose", "np.linalg.eigvalsh", "np.copy", "np.ravel", "np.broadcast_arrays",
+            "np.negative", "float", "np.float64", "max", "min", "np.moveaxis", "np.swapaxes", "np.column_stack", "np.vstack"}
+    ZERO = {"np.sign", "np.invert", "np.logical_not", "np.logical_and", "np.logical_or", "np.signbit", "np.isnan", "np.shape",
+            "np.ndim", "len", "np.ones", "np.ones_like", "bool", "np.isfinite", "np.any", "np.all"}
+    ANYV = {"np.zeros", "np.zeros_like", "np.empty", "np.empty_like"}
+
+    def const(self, c):
+        if isinstance(c, (int, float)) and not isinstance(c, bool) and c == 0:
+            return "any"
+        return 0
+
+    def _flat(self, v):
+        if isinstance(v, Seq):
+            out = "any"
+            for x in v:
+                out = self.join(out, self._flat(x))
+            return out
+        return v
+
+    def join(self, a, b):
+        if a is None or b is None:
+            return None
+        if "mixed" in (a, b):
+            return "mixed"
+        if a == "any":
+            return b
+        if b == "any":
+            return a
+        return a if a == b else "mixed"       # two known, different degrees: not homogeneous
+
+    def binop(self, op, a, b, node):
+        if a is None or b is None:
+            return None
+        if "mixed" in (a, b):
+            return "mixed"
+        if isinstance(op, (ast.Add, ast.Sub)):
+            return self.join(a, b)
+        if isinstance(op, ast.Mult):
+            return "any" if "any" in (a, b) else a + b
+        if isinstance(op, ast.Div):
+            return "any" if a == "any" else (None if b == "any" else a - b)
+        if isinstance(op, ast.Pow):
+            c = const_value(node.right) if isinstance(node, ast.BinOp) else None
+            if a == "any":
+                return "any"
+            return a * c if isinstance(c, (int, float)) else None
+        if isinstance(op, (ast.BitAnd, ast.BitOr, ast.BitXor)):
+            return 0 if a in (0, "any") and b in (0, "any") else None
+        return None
+
+    def unaryop(self, op, a, node):
+        if isinstance(op, (ast.Not, ast.Invert)):
+            return 0 if a in (0, "any") else None
+        return a
+
+    def compare(self, node, vals):
+        vals = [self._flat(v) for v in vals]
+        out = vals[0]
+        for v in vals[1:]:
+            out = self.join(out, v)
+        # comparing quantities of one degree (or with a literal zero) is invariant under positive scaling
+        return None if out is None else ("mixed" if out == "mixed" else 0)
+
+    def boolop(self, node, vals):
+        return 0 if all(v in (0, "any") for v in vals) else (None if None in vals else "mixed")
+
+    def call(self, fn, args, kwargs, node, interp, env):
+        args = [self._flat(a) for a in args]
+        if "mixed" in args and (fn in self.KEEP or fn in self.ZERO or fn in ("np.sqrt", "np.power", "pow")):
+            return "mixed"
+        if fn in self.KEEP and args:
+            if fn in ("np.where", "np.choose") and len(args) == 3:
+                return self.join(args[1], args[2]) if args[0] in (0, "any") else None
+            out = args[0]
+            if fn in ("np.maximum", "np.minimum", "max", "min", "np.stack", "np.column_stack", "np.vstack"):
+                for a in args[1:]:
+                    out = self.join(out, a)
+            return out
+        if fn in self.ZERO:
+            return 0 if all(a is not None for a in args) else None
+        if fn in self.ANYV:
+            return "any"
+        if fn in ("np.sqrt",) and args:
+            return None if args[0] is None else ("any" if args[0] == "any" else args[0] / 2)
+        if fn in ("np.power", "pow") and len(args) == 2:
+            c = const_value(node.args[1])
+            return None if args[0] is None or not isinstance(c, (int, float)) else ("any" if args[0] == "any" else args[0] * c)
+        if fn in ("np.multiply", "np.dot") and len(args) >= 2:
+            return self.binop(ast.Mult(), args[0], args[1], node)
+        if fn in ("np.divide",) and len(args) >= 2:
+            return self.binop(ast.Div(), args[0], args[1], node)
+        if fn in ("np.add", "np.subtract") and len(args) >= 2:
+            return self.join(args[0], args[1])
+        return NotImplemented
+
+    def method(self, recv, name, args, kwargs, node):
+        recv = self._flat(recv)
+        if name in ("max", "min", "sum", "mean", "copy", "astype", "reshape", "squeeze", "ravel", "flatten", "transpose", "item",
+                    "to_numpy", "clip", "__abs__", "take", "swapaxes"):
+            return recv
+        if name in ("any", "all"):
+            return 0 if recv is not None else None
+        return None
+
+    def attribute(self, recv, attr, node):
+        recv = self._flat(recv)
+        if attr in ("T", "real", "values", "flat"):
+            return recv
+        if attr in ("shape", "ndim", "size", "dtype"):
+            return 0
+        return None
+
+    def subscript(self, recv, index, node):
+        return self._flat(recv)
+
+    def store(self, old, index, value, node):
+        old, value = self._flat(old), self._flat(value)
+        return self.join(old, value)
+
+
+class NFDomain(Domain):
+    """rational normal form in the parameters; sqrt kept as a tagged value"""
+
+    def const(self, c):
+        if isinstance(c, bool) or not isinstance(c, (int, float)):
+            return None
+        return RF.const(Fraction(c).limit_denominator(10 ** 12))
+
+    def binop(self, op, a, b, node):
+        if not isinstance(a, RF) or not isinstance(b, RF):
+            return None
+        try:
+            if isinstance(op, ast.Add):
+                return a + b
+            if isinstance(op, ast.Sub):
+                return a - b
+            if isinstance(op, ast.Mult):
+                return a * b
+            if isinstance(op, ast.Div):
+                return a / b
+            if isinstance(op, ast.Pow):
+                c = const_value(node.right) if isinstance(node, ast.BinOp) else None
+                if isinstance(c, int) and 0 <= c <= 8:
+                    out = RF.const(1)
+                    for _ in range(c):
+                        out = out * a
+                    return out
+        except (NFUnsupported, ZeroDivisionError):
+            return None
+        return None
+
+    def unaryop(self, op, a, node):
+        if isinstance(a, RF) and isinstance(op, ast.USub):
+            return RF.const(0) - a
+        return a if isinstance(op, ast.UAdd) else None
+
+    def call(self, fn, args, kwargs, node, interp, env):
+        if fn in ("np.array", "np.asarray", "float", "np.float64", "np.atleast_1d") and args:
+            return args[0]
+        if fn == "np.sqrt" and args and isinstance(args[0], RF):
+            return ("sqrt", args[0])
+        if fn in ("np.square",) and args and isinstance(args[0], RF):
+            return args[0] * args[0]
+        if fn in ("np.power", "pow") and len(args) == 2 and isinstance(args[0], RF):
+            c = const_value(node.args[1])
+            if c == 0.5:
+                return ("sqrt", args[0])
+            if isinstance(c, int) and 0 <= c <= 8:
+                out = RF.const(1)
+                for _ in range(c):
+                    out = out * args[0]
+                return out
+        return NotImplemented
+
+    def method(self, recv, name, args, kwargs, node):
+        return recv if name in ("astype", "copy") else None
+
+
+class SignValueDomain(Domain):
+    """concrete execution of a sign helper: np.sign(...) yields the injected value v0 in {-1, 0, +1}; `.ndim` is 0 (scalar
+    branch) or 1 (array branch); everything else is ordinary integer / boolean arithmetic; None = not modelled"""
+
+    def __init__(self, v0, ndim):
+        self.v0, self.ndim = v0, ndim
+
+    def const(self, c):
+        return c if isinstance(c, (int, float, bool)) else None
+
+    def truth(self, v):
+        return bool(v) if isinstance(v, (int, bool, float)) else None
+
+    def join(self, a, b):
+        return a if a == b and type(a) is type(b) else None
+
+    def call(self, fn, args, kwargs, node, interp, env):
+        if fn == "np.sign":
+            return self.v0
+        if fn in ("np.array", "np.asarray", "int", "float", "np.atleast_1d", "np.float64", "np.int64") and args:
+            return args[0]
+        if fn == "np.where" and len(args) == 3 and isinstance(args[0], (bool, int)):
+            return args[1] if args[0] else args[2]
+        if fn in ("np.invert", "np.logical_not") and args and isinstance(args[0], bool):
+            return not args[0]
+        if fn in ("np.amax", "np.amin", "np.max", "np.min", "eigenval"):
+            return ("opaque", fn)
+        return NotImplemented
+
+    def binop(self, op, a, b, node):
+        if isinstance(a, (int, bool, float)) and isinstance(b, (int, bool, float)):
+            if isinstance(op, ast.Add):
+                return int(a) + int(b) if not isinstance(a, float) and not isinstance(b, float) else a + b
+            if isinstance(op, ast.Sub):
+                return a - b
+            if isinstance(op, ast.Mult):
+                return a * b
+        return ("opaque", "binop") if isinstance(a, tuple) or isinstance(b, tuple) else None
+
+    def unaryop(self, op, a, node):
+        if isinstance(a, (int, bool, float)):
+            if isinstance(op, ast.USub):
+                return -a
+            if isinstance(op, (ast.Not, ast.Invert)) and isinstance(a, bool):
+                return not a
+        return None
+
+    def compare(self, node, vals):
+        if len(vals) == 2 and all(isinstance(v, (int, bool, float)) for v in vals):
+            a, b = vals
+            return {ast.Eq: a == b, ast.NotEq: a != b, ast.GtE: a >= b, ast.Gt: a > b, ast.Lt: a < b, ast.LtE: a <= b}.get(
+                type(node.ops[0]))
+        return None
+
+    def attribute(self, recv, attr, node):
+        if attr == "ndim":
+            return self.ndim
+        if attr == "T":
+            return recv
+        if attr == "shape":
+            return ("opaque", "shape")
+        return None
+
+    def method(self, recv, name, args, kwargs, node):
+        return recv if name in ("astype", "copy", "item") else (("opaque", name) if isinstance(recv, tuple) else None)
+
+    def subscript(self, recv, index, node):
+        return recv if isinstance(recv, tuple) else None
+
+    def store(self, old, index, value, node):
+        if isinstance(index, bool):
+            return value if index else old
+        return None
+
+
+class NonNegDomain(Domain):
+    """is a value non-negative in floating point for every real input by the way it is computed?  "NN" = yes (even powers,
+    products in which every signed factor occurs an even number of times, abs, non-negative constants, sums / quotients of
+    such); ("S", keys) = a product of the signed atoms `keys` (times non-negative factors).  Differences are never "NN"
+    (cancellation can round below zero).  Square-root arguments are recorded."""
+
+    def __init__(self):
+        self.roots = []            # (node, value of the radicand)
+        self._n = 0
+
+    def _atom(self, node=None):
+        self._n += 1
+        return ("S", (norm_text(node) if node is not None else "?%d" % self._n,))
+
+    def unknown(self):
+        return self._atom()
+
+    def const(self, c):
+        return "NN" if isinstance(c, (int, float)) and not isinstance(c, bool) and c >= 0 else self._atom()
+
+    def join(self, a, b):
+        return "NN" if a == b == "NN" else (a if a == b else self._atom())
+
+    @staticmethod
+    def _norm(keys):
+        keys = tuple(sorted(keys))
+        odd = tuple(k for k in sorted(set(keys)) if keys.count(k) % 2)
+        return "NN" if not odd else ("S", odd)
+
+    def binop(self, op, a, b, node):
+        if isinstance(op, ast.Pow):
+            k = const_value(node.right) if isinstance(node, ast.BinOp) else None
+            if isinstance(k, int) and not isinstance(k, bool) and k >= 0 and k % 2 == 0:
+                return "NN"
+            if a == "NN" and isinstance(k, (int, float)) and k >= 0:
+                return "NN"
+            if isinstance(k, int) and k > 0 and isinstance(a, tuple):
+                return a
+            return self._atom(node)
+        if isinstance(op, (ast.Mult, ast.Div)):
+            ka = () if a == "NN" else (a[1] if isinstance(a, tuple) else None)
+            kb = () if b == "NN" else (b[1] if isinstance(b, tuple) else None)
+            if ka is None or kb is None:
+                return self._atom(node)
+            return self._norm(ka + kb)
+        if isinstance(op, ast.Add):
+            return "NN" if a == b == "NN" else self._atom(node)
+        return self._atom(node)
+
+    def unaryop(self, op, a, node):
+        return a if isinstance(op, ast.UAdd) else self._atom(node)
+
+    def call(self, fn, args, kwargs, node, interp, env):
+        flat = ["NN" if (isinstance(a, Seq) and all(x == "NN" for x in a)) else a for a in args]
+        if fn in ("np.sqrt", "math.sqrt") and flat:
+            self.roots.append((node, flat[0]))
+            return "NN"
+        if fn in ("np.power", "pow") and len(flat) == 2 and const_value(node.args[1]) == 0.5:
+            self.roots.append((node, flat[0]))
+            return "NN"
+        if fn in ("np.abs", "abs", "np.fabs", "np.absolute", "np.square"):
+            return "NN"
+        if fn in ("np.maximum", "max", "np.fmax") and len(flat) == 2:
+            return "NN" if "NN" in flat else self._atom(node)
+        if fn in ("np.sum", "sum", "np.array", "np.asarray", "np.amax", "np.max", "np.amin", "np.min", "float") and flat:
+            return flat[0] if flat[0] == "NN" or fn in ("np.array", "np.asarray", "float") else self._atom(node)
+        return NotImplemented
+
+    def method(self, recv, name, args, kwargs, node):
+        return recv if name in ("astype", "copy", "sum", "max", "min") and recv == "NN" else self._atom(node)
+
+    def subscript(self, recv, index, node):
+        return recv if recv == "NN" else self._atom(node)
+
+    def attribute(self, recv, attr, node):
+        return recv if attr == "T" and recv == "NN" else self._atom(node)
+
+
+class EigenDomain(Domain):
+    """symbolic values around the ascending eigenvalues W of the stress tensor: the eigenvalues w0 <= w1 <= w2, |w_i - w_j|,
+    maxima over such differences, the extreme eigenvalues, the abs-max sign indicator and the abs-max selection"""
+
+    def const(self, c):
+        return ("c", c) if isinstance(c, (int, float)) and not isinstance(c, bool) else None
+
+    def join(self, a, b):
+        return a if a == b else None
+
+    def call(self, fn, args, kwargs, node, interp, env):
+        ax = kwargs.get("axis")
+        ax = ax[1] if isinstance(ax, tuple) and ax and ax[0] == "c" else None
+        if fn == "eigenval":
+            return "W"                       # (N, 3), ascending along the last axis (R-C17-2 + assumption)
+        if fn in ("np.fabs", "np.abs", "abs", "np.absolute") and args:
+            a = args[0]
+            if isinstance(a, tuple) and a and a[0] == "diff":
+                return ("absdiff", a[1])
+            return None
+        if fn in ("np.amax", "np.max", "np.amin", "np.min") and args:
+            return self._reduce("max" if fn in ("np.amax", "np.max") else "min", args[0], ax)
+        if fn in ("np.array", "np.asarray", "np.stack", "np.vstack") and args:
+            return args[0]
+        if fn in ("np.zeros", "np.zeros_like", "np.empty", "np.empty_like"):
+            return ("buf", ())
+        if fn == "np.sign" and args:
+            return ("sign", args[0]) if args[0] == "SUM" else None
+        if fn in ("np.invert", "np.logical_not") and args:
+            return self._neg(args[0])
+        if fn == "np.where" and len(args) == 3:
+            if self._isbool(args[0]) and args[1] == "MAX" and args[2] == "MIN":
+                return self._select(args[0])
+            if self._isbool(args[0]) and args[1] == "MIN" and args[2] == "MAX":
+                return self._select(self._neg(args[0]))
+            if args[0] == ("iszero", ("sign", "SUM")) and args[1] == ("c", 1) and args[2] == ("sign", "SUM"):
+                return "SGN1"
+            return None
+        return NotImplemented
+
+    BOOLS = ("POS", "NEG", "POSSTRICT", "NEGSTRICT", "ALWAYS", "NEVER")
+
+    def _isbool(self, x):
+        return x in self.BOOLS
+
+    def _neg(self, x):
+        return {"POS": "NEGSTRICT", "NEGSTRICT": "POS", "NEG": "POSSTRICT", "POSSTRICT": "NEG", "ALWAYS": "NEVER",
+                "NEVER": "ALWAYS"}.get(x)
+
+    def _select(self, cond):
+        """w_max where cond else w_min"""
+        return "ABSMAX" if cond == "POS" else ("BADSELECT", cond)
+
+    def _reduce(self, kind, a, ax):
+        if a in ("W", "WT"):
+            good = (a == "W" and ax in (1, -1)) or (a == "WT" and ax == 0)
+            return ("MAX" if kind == "max" else "MIN") if good else None
+        if isinstance(a, Seq):
+            items = list(a)
+        elif isinstance(a, tuple) and a and a[0] == "buf":
+            items = [v for _, v in a[1]]
+        else:
+            return None
+        if ax != 0 or not all(isinstance(x, tuple) and x and x[0] == "absdiff" for x in items):
+            if all(x in (("w", 0), ("w", 1), ("w", 2)) for x in items) and len(set(items)) == 3 and ax == 0:
+                return "MAX" if kind == "max" else "MIN"
+            return None
+        return (kind + "absdiff", frozenset(x[1] for x in items))
+
+    def method(self, recv, name, args, kwargs, node):
+        ax = kwargs.get("axis") or (args[0] if args else None)
+        ax = ax[1] if isinstance(ax, tuple) and ax and ax[0] == "c" else None
+        if name in ("max", "min"):
+            return self._reduce(name, recv, ax)
+        if name in ("copy", "astype"):
+            return recv
+        return None
+
+    def attribute(self, recv, attr, node):
+        if attr == "T":
+            return {"W": "WT", "WT": "W"}.get(recv)
+        if attr == "shape" and recv in ("W", "WT"):
+            return ("shape", recv)
+        return None
+
+    def subscript(self, recv, index, node):
+        if recv == "WT" and index in (0, 1, 2):
+            return ("w", index)
+        if recv == "W" and isinstance(node, ast.Subscript):
+            t = norm_text(node.slice)
+            for i in (0, 1, 2):
+                if t in ("(..., %d)" % i, "(slice(None, None, None), %d)" % i, "(:, %d)" % i) or \
+                        ast.unparse(node.slice) in ("..., %d" % i, ":, %d" % i):
+                    return ("w", i)
+        if recv == "WT" and index is not None and isinstance(index, int):
+            return ("w", index)
+        return None
+
+    def store(self, old, index, value, node):
+        if isinstance(old, tuple) and old and old[0] == "buf" and isinstance(index, tuple) and index and index[0] == "c":
+            return ("buf", tuple(sorted(dict(old[1], **{index[1]: value}).items())) if False else
+                    tuple(list(old[1]) + [(index[1], value)]))
+        if old == ("sign", "SUM") and index == ("iszero", ("sign", "SUM")) and value == ("c", 1):
+            return "SGN1"
+        return None
+
+    def binop(self, op, a, b, node):
+        w = lambda x: isinstance(x, tuple) and len(x) == 2 and x[0] == "w"
+        if isinstance(op, ast.Sub) and w(a) and w(b) and a != b:
+            return ("diff", frozenset((a[1], b[1])))
+        if isinstance(op, ast.Add) and {a, b} == {"MAX", "MIN"}:
+            return "SUM"
+        if isinstance(op, ast.Add) and {a, b} == {("sign", "SUM"), ("iszero", ("sign", "SUM"))}:
+            return "SGN1"                    # sign + [sign == 0]
+        if isinstance(op, ast.Add) and {a, b} == {("w", 0), ("w", 2)}:
+            return "SUM"
+        if isinstance(op, ast.Mult):
+            for x, y in ((a, b), (b, a)):
+                if x in ("MAX", "MIN") and self._isbool(y):
+                    return ("sel", x, y)
+        if isinstance(op, ast.Add) and all(isinstance(x, tuple) and x and x[0] == "sel" for x in (a, b)):
+            m = {x[1]: x[2] for x in (a, b)}
+            if set(m) == {"MAX", "MIN"} and self._neg(m["MAX"]) == m["MIN"]:
+                return self._select(m["MAX"])
+            return ("BADSELECT", (a, b))
+        return None
+
+    def unaryop(self, op, a, node):
+        if isinstance(op, (ast.Invert, ast.Not)) and self._isbool(a):
+            return self._neg(a)
+        return None
+
+    def compare(self, node, vals):
+        if len(vals) != 2:
+            return None
+        a, b = vals
+        op = node.ops[0]
+        if isinstance(op, ast.Eq) and a == ("sign", "SUM") and b == ("c", 0):
+            return ("iszero", a)
+        if not (isinstance(b, tuple) and b and b[0] == "c"):
+            return None
+        c = b[1]
+        test = {ast.Eq: lambda v: v == c, ast.NotEq: lambda v: v != c, ast.GtE: lambda v: v >= c, ast.Gt: lambda v: v > c,
+                ast.Lt: lambda v: v < c, ast.LtE: lambda v: v <= c}.get(type(op))
+        if test is None:
+            return None
+        if a == "SGN1":
+            dom = (-1, 1)                 # sign of w_max + w_min with 0 counted as +1
+        elif a in (("sign", "SUM"),):
+            dom = (-1, 0, 1)
+        elif a == "SUM" and c == 0:
+            dom = (-1, 0, 1)              # only the sign of the sum matters for a comparison with zero
+        else:
+            return None
+        true = frozenset(v for v in dom if test(v))
+        if a == "SGN1":
+            return {frozenset((1,)): "POS", frozenset((-1,)): "NEGSTRICT", frozenset(): "NEVER", frozenset((-1, 1)): "ALWAYS"}[true]
+        return {frozenset((0, 1)): "POS", frozenset((1,)): "POSSTRICT", frozenset((-1,)): "NEGSTRICT", frozenset((-1, 0)): "NEG",
+                frozenset(): "NEVER", frozenset((-1, 0, 1)): "ALWAYS"}.get(true)
+
+
 def run(ctx):
     for r in (_r1, _r2, _r3, _r4, _r5, _r6, _r7):
         ctx.attempt(r)
@@ -181,23 +682,14 @@ def _r3(ctx):
     prog = ctx.prog
     ctx.rule("R-C17-3", floor=1, what="mises^2 == 3/2 tr(dev(S)^2)")
     f = prog.func(EQ + ":mises")
-    sq = [c for c in calls_in(f.node) if call_name(c) in ("np.sqrt", "numpy.sqrt")]
-    if len(sq) != 1:
-        raise AnalysisError("mises: square root not found")
-    try:
-        got = to_nf(sq[0].args[0])
-    except NFUnsupported as e:
-        raise AnalysisError("mises radicand outside the fragment: %s" % e)
-    ret = [s for s in f.node.body if isinstance(s, ast.Return)][-1]
-    st = sq[0]
-    while not isinstance(st, ast.stmt):
-        st = st._parent
-    returned = isinstance(ret.value, ast.Name) and isinstance(st, ast.Assign) and isinstance(st.targets[0], ast.Name) and \
-        st.targets[0].id == ret.value.id or any(x is sq[0] for x in ast.walk(ret))
-    if got == _mises_reference() and returned:
-        ctx.holds(f, st, "radicand == 3/2 tr(dev^2) (rotation-invariant form)", {"nf": repr(got)})
+    val = Interp(prog, NFDomain()).run(f, [RF.sym(c) for c in f.params])
+    if not (isinstance(val, tuple) and len(val) == 2 and val[0] == "sqrt" and isinstance(val[1], RF)):
+        raise AnalysisError("mises: the returned value is not recognised as the square root of a polynomial in the components")
+    got = val[1]
+    if got == _mises_reference():
+        ctx.holds(f, f.node, "radicand == 3/2 tr(dev^2) (rotation-invariant form)", {"nf": repr(got)})
     else:
-        ctx.violated(f, st, "mises radicand %r is not 3/2*tr(dev(S)^2) = %r: the result is no longer the von Mises invariant"
+        ctx.violated(f, f.node, "mises radicand %r is not 3/2*tr(dev(S)^2) = %r: the result is no longer the von Mises invariant"
                      % (got, _mises_reference()))
 
 
@@ -268,28 +760,30 @@ def _tolerance_scan(ctx, rule):
 
 
 def _r7(ctx):
-    """Every square root in the equivalent-stress module takes a radicand that is non-negative by its form (sum of squares).
-    An algebraically non-negative difference of products (s11^2 + ... - s11*s22 - ...) can round below zero - for hydrostatic
-    states the exact value is 0 - and then the square root is NaN."""
+    """Every square root in the equivalent-stress module takes a radicand that is non-negative by the way it is computed (sum
+    of squares).  An algebraically non-negative difference of products (s11^2 + ... - s11*s22 - ...) can round below zero - for
+    hydrostatic states the exact value is 0 - and then the square root is NaN."""
     prog = ctx.prog
     ctx.rule("R-C17-7", floor=1, what="radicands of square roots are non-negative by form (no cancellation below zero)")
     n = 0
     for key, fi in sorted(prog.functions.items()):
-        if fi.module.name != EQ:
+        if fi.module.name != EQ or fi.parent is not None or fi.cls is not None:
             continue
-        for c in calls_in(fi.node):
-            if (call_name(c) or "") in ("np.sqrt", "numpy.sqrt", "math.sqrt") and c.args or \
-                    ((call_name(c) or "") in ("np.power", "pow") and len(c.args) == 2 and const_value(c.args[1]) == 0.5):
-                n += 1
-                st = c
-                while not isinstance(st, ast.stmt):
-                    st = st._parent
-                if _manifest_nonneg(c.args[0]):
-                    ctx.holds(fi, st, "%s: radicand %s is a sum of squares" % (fi.name, norm_text(c.args[0])[:80]))
-                else:
-                    ctx.violated(fi, st, "%s: the radicand %s is not non-negative by its form; where it is exactly zero "
-                                 "(hydrostatic tensors, e.g. mises(0.7, 0.7, 0.7, 0, 0, 0)) rounding can make it negative and the "
-                                 "result NaN" % (fi.name, norm_text(c.args[0])[:160]), text="radicand " + fi.name)
+        if not any((call_name(c) or "") in ("np.sqrt", "numpy.sqrt", "math.sqrt", "np.power", "pow") for c in calls_in(fi.node)):
+            continue
+        dom = NonNegDomain()
+        Interp(prog, dom, follow=lambda callee: False).run(fi, [("S", (q,)) for q in fi.params])
+        for node, val in dom.roots:
+            n += 1
+            st = node
+            while not isinstance(st, ast.stmt):
+                st = st._parent
+            if val == "NN":
+                ctx.holds(fi, st, "%s: radicand %s is a sum of squares" % (fi.name, norm_text(node.args[0])[:80]))
+            else:
+                ctx.violated(fi, st, "%s: the radicand %s is not non-negative by the way it is computed; where it is exactly zero "
+                             "(hydrostatic tensors, e.g. mises(0.7, 0.7, 0.7, 0, 0, 0)) rounding can make it negative and the "
+                             "result NaN" % (fi.name, norm_text(node.args[0])[:160]), text="radicand " + fi.name)
     if n == 0:
         raise AnalysisError("no square root found in the equivalent-stress module")
 
@@ -346,134 +840,37 @@ def _r4(ctx):
     prog = ctx.prog
     ctx.rule("R-C17-4", floor=12, what="equivalent stresses have degree 1, sign helpers degree 0")
     _tolerance_scan(ctx, "R-C17-4")
-    m = prog.module(EQ)
-    funcs = {}
     order = ["eigenval", "_sign_trace", "_sign_abs_max_principal", "tresca", "mises", "max_principal", "min_principal",
              "principals", "abs_max_principal", "signed_tresca_trace", "signed_tresca_abs_max_principal",
              "signed_mises_trace", "signed_mises_abs_max_principal"]
     want = {k: 1 for k in order}
     want["_sign_trace"] = 0
     want["_sign_abs_max_principal"] = 0
+    dom = DegreeDomain()
     for name in order:
         f = prog.func(EQ + ":" + name)
-        env = {p: 1 for p in f.params}
-        env["@funcs"] = dict(funcs)
-        if name == "eigenval":
-            funcs[name] = 1     # eigenvalues of a matrix whose entries have degree 1 (assumption on eigvalsh)
-            ctx.holds(f, f.node, "eigenval: eigenvalues of a matrix of plain components (R-C17-2) have degree 1")
-            continue
-        ret = []
-
-        def block(body, env):
-            for s in body:
-                if isinstance(s, ast.Assign):
-                    for t, v in tuple_assign_pairs(s):
-                        dv = _deg(v, env)
-                        if isinstance(t, ast.Name):
-                            if dv is None:
-                                env[t.id] = None
-                            else:
-                                env[t.id] = dv
-                        elif isinstance(t, ast.Subscript) and isinstance(t.value, ast.Name):
-                            cur = env.get(t.value.id)
-                            if cur == "any" and dv is not None:
-                                env[t.value.id] = dv
-                            elif cur != dv and not (cur == 0 and dv == 0):
-                                env[t.value.id] = None
-                elif isinstance(s, ast.If):
-                    e1, e2 = dict(env), dict(env)
-                    block(s.body, e1)
-                    block(s.orelse, e2)
-                    for k in set(e1) | set(e2):
-                        if k == "@funcs":
-                            continue
-                        env[k] = e1.get(k) if e1.get(k) == e2.get(k) else None
-                elif isinstance(s, ast.Return) and s.value is not None:
-                    ret.append(_deg(s.value, env))
-        block(f.node.body, env)
-        d = ret[0] if ret and all(r == ret[0] for r in ret) else None
-        funcs[name] = d
+        d = dom._flat(Interp(prog, dom).run(f, [1] * len(f.params)))
         if d == want[name]:
             ctx.holds(f, f.node, "%s is positively homogeneous of degree %d" % (name, d))
+        elif d is None or d == "any":
+            raise AnalysisError("%s: homogeneity degree not derivable (an operation outside the degree domain)" % name)
+        elif d == "mixed":
+            ctx.violated(f, f.node, "%s combines quantities of different homogeneity degrees (e.g. a stress with a pure number): "
+                         "it does not scale with the tensor as degree %d" % (name, want[name]), text="%s degree mixed" % name)
         else:
             ctx.violated(f, f.node, "%s has homogeneity degree %s, expected %d: it would not scale with the tensor" %
                          (name, d, want[name]), text="%s degree %s" % (name, d))
 
 
 def _sign_map(prog, f):
-    """Execute the sign helper abstractly on each of -1, 0, +1 for the scalar and the array branch."""
-    out = {}
-    sgn_name = None
-    stmts = list(f.node.body)
+    """Execute the sign helper on each of -1, 0, +1 (the value of its np.sign call) for the scalar and the array branch."""
     results = {}
-    for branch in ("scalar", "array"):
+    for branch, ndim in (("scalar", 0), ("array", 1)):
         res = {}
         for v0 in (-1, 0, 1):
-            env = {}
-            val = None
-
-            def ev(e):
-                if isinstance(e, ast.Name):
-                    return env.get(e.id)
-                if isinstance(e, ast.Constant):
-                    return e.value
-                if isinstance(e, ast.Call):
-                    fn = call_name(e)
-                    if fn in ("np.sign",):
-                        return ("SIGN",)
-                    if fn in ("np.array", "np.asarray") and e.args:
-                        return ev(e.args[0])
-                    return None
-                if isinstance(e, ast.Compare) and len(e.ops) == 1:
-                    l, r = ev(e.left), ev(e.comparators[0])
-                    if isinstance(l, (int, bool)) and isinstance(r, (int, bool)):
-                        op = e.ops[0]
-                        return {ast.Eq: l == r, ast.NotEq: l != r, ast.GtE: l >= r, ast.Gt: l > r, ast.Lt: l < r,
-                                ast.LtE: l <= r}.get(type(op))
-                    return None
-                if isinstance(e, ast.BinOp) and isinstance(e.op, (ast.Add, ast.Sub, ast.Mult)):
-                    l, r = ev(e.left), ev(e.right)
-                    if isinstance(l, (int, bool)) and isinstance(r, (int, bool)):
-                        if isinstance(e.op, ast.Add):
-                            return int(l) + int(r)
-                        if isinstance(e.op, ast.Sub):
-                            return int(l) - int(r)
-                        return int(l) * int(r)
-                    return None
-                if isinstance(e, ast.UnaryOp) and isinstance(e.op, ast.USub):
-                    v = ev(e.operand)
-                    return -v if isinstance(v, (int, bool)) else None
-                if isinstance(e, ast.Attribute) and e.attr == "ndim":
-                    return 0 if branch == "scalar" else 1
-                return None
-
-            def run_block(body):
-                for s in body:
-                    if isinstance(s, ast.Assign) and isinstance(s.targets[0], ast.Name):
-                        v = ev(s.value)
-                        if v == ("SIGN",):
-                            v = v0
-                        env[s.targets[0].id] = v
-                    elif isinstance(s, ast.Assign) and isinstance(s.targets[0], ast.Subscript) and \
-                            isinstance(s.targets[0].value, ast.Name):
-                        # x[mask] = c
-                        name = s.targets[0].value.id
-                        mask = ev(s.targets[0].slice)
-                        if mask is True:
-                            env[name] = ev(s.value)
-                        elif mask is None:
-                            env[name] = None
-                    elif isinstance(s, ast.If):
-                        t = ev(s.test)
-                        if t is None:
-                            env.clear()
-                            return
-                        run_block(s.body if t else s.orelse)
-                    elif isinstance(s, ast.Return):
-                        env["@ret"] = ev(s.value)
-                        return
-            run_block(stmts)
-            res[v0] = env.get("@ret")
+            dom = SignValueDomain(v0, ndim)
+            v = Interp(prog, dom).run(f, [("opaque", q) for q in f.params])
+            res[v0] = int(v) if isinstance(v, (int, bool)) and not isinstance(v, float) else (int(v) if isinstance(v, float) and v == int(v) else None)
         results[branch] = res
     return results
 
@@ -525,57 +922,32 @@ def _r5(ctx):
 def _r6(ctx):
     prog = ctx.prog
     ctx.rule("R-C17-6", floor=3, what="Tresca over all eigenvalue pairs; abs-max selects w_max iff w_max + w_min >= 0")
+    dom = EigenDomain()
     f = prog.func(EQ + ":tresca")
-    pairs = set()
-    for s in f.node.body:
-        if isinstance(s, ast.Assign) and isinstance(s.targets[0], ast.Subscript) and isinstance(s.value, ast.Call) and \
-                call_name(s.value) in ("np.fabs", "np.abs", "abs"):
-            a = s.value.args[0]
-            if isinstance(a, ast.BinOp) and isinstance(a.op, ast.Sub) and isinstance(a.left, ast.Subscript) and \
-                    isinstance(a.right, ast.Subscript):
-                pairs.add(frozenset((const_value(a.left.slice), const_value(a.right.slice))))
-    r = [s for s in f.node.body if isinstance(s, ast.Return)][-1]
-    red = isinstance(r.value, ast.Call) and call_name(r.value) in ("np.amax", "np.max") and \
-        next((const_value(k.value) for k in r.value.keywords if k.arg == "axis"), None) == 0
-    if pairs == {frozenset((0, 1)), frozenset((0, 2)), frozenset((1, 2))} and red:
-        ctx.holds(f, r, "tresca = max over the three eigenvalue pairs |w_i - w_j| = w_max - w_min on every ordering")
+    v = Interp(prog, dom).run(f, [("p", q) for q in f.params])
+    allp = frozenset((frozenset((0, 1)), frozenset((0, 2)), frozenset((1, 2))))
+    if isinstance(v, tuple) and v and v[0] == "maxabsdiff" and v[1] == allp:
+        ctx.holds(f, f.node, "tresca = max over the three eigenvalue pairs |w_i - w_j| = w_max - w_min on every ordering")
+    elif isinstance(v, tuple) and v and v[0] in ("maxabsdiff", "minabsdiff"):
+        ctx.violated(f, f.node, "tresca takes the %s over the eigenvalue pairs %s; it must be the maximum over all three pairs" %
+                     (v[0][:3], sorted(map(sorted, v[1]))), text="tresca pairs")
     else:
-        ctx.violated(f, r, "tresca takes %s over pairs %s; it must be the maximum over all three eigenvalue pairs" %
-                     (norm_text(r.value), sorted(map(sorted, pairs))))
+        raise AnalysisError("tresca: value %r not recognised as a reduction over eigenvalue differences" % (v,))
     a = prog.func(EQ + ":abs_max_principal")
-    env = {}
-    for s in a.node.body:
-        if isinstance(s, ast.Assign) and isinstance(s.targets[0], ast.Name):
-            env[s.targets[0].id] = s.value
-    r = [s for s in a.node.body if isinstance(s, ast.Return)][-1]
-    try:
-        wmax = [k for k, v in env.items() if isinstance(v, ast.Call) and call_name(v) == "np.amax"][0]
-        wmin = [k for k, v in env.items() if isinstance(v, ast.Call) and call_name(v) == "np.amin"][0]
-        b = [k for k, v in env.items() if isinstance(v, ast.Call) and call_name(v) == "np.array" and
-             isinstance(v.args[0], ast.Compare)][0]
-        cmp_ = env[b].args[0]
-        sign_src = env[cmp_.left.id]
-        ok = isinstance(cmp_.ops[0], ast.GtE) and const_value(cmp_.comparators[0]) == 0 and \
-            call_name(sign_src) == "_sign_abs_max_principal" and \
-            norm_text(r.value) in ("%s * %s + %s * np.invert(%s)" % (wmax, b, wmin, b),)
-    except (IndexError, KeyError, AttributeError):
-        ok = False
-    if ok:
-        ctx.holds(a, r, "abs_max_principal = w_max where sign >= 0 else w_min")
+    v = Interp(prog, dom).run(a, [("p", q) for q in a.params])
+    if v == "ABSMAX":
+        ctx.holds(a, a.node, "abs_max_principal = w_max where the sign indicator is >= 0, else w_min")
+    elif v in ("MAX", "MIN") or (isinstance(v, tuple) and v and v[0] in ("sel", "BADSELECT")):
+        ctx.violated(a, a.node, "abs_max_principal returns %s, not 'w_max where w_max + w_min >= 0, else w_min'" % (v,),
+                     text="abs max selection")
     else:
-        ctx.violated(a, r, "abs_max_principal is not 'w_max where the sign indicator is >= 0, else w_min'")
+        raise AnalysisError("abs_max_principal: value %r not recognised" % (v,))
     h = prog.func(EQ + ":_sign_abs_max_principal")
-    sg = [c for c in calls_in(h.node) if call_name(c) == "np.sign"]
-    env = {s.targets[0].id: s.value for s in h.node.body if isinstance(s, ast.Assign) and isinstance(s.targets[0], ast.Name)}
-    ok = False
-    if len(sg) == 1 and isinstance(sg[0].args[0], ast.BinOp) and isinstance(sg[0].args[0].op, ast.Add):
-        l, r_ = sg[0].args[0].left, sg[0].args[0].right
-        fl = {call_name(env.get(x.id)) for x in (l, r_) if isinstance(x, ast.Name) and isinstance(env.get(x.id), ast.Call)}
-        ok = fl == {"np.amax", "np.amin"}
-    if ok:
-        ctx.holds(h, sg[0], "indicator = sign(w_max + w_min): positive iff the eigenvalue of largest magnitude is positive")
+    v = Interp(prog, dom).run(h, [("p", q) for q in h.params])
+    if v == "SGN1" or v == ("sign", "SUM"):
+        ctx.holds(h, h.node, "indicator = sign(w_max + w_min): positive iff the eigenvalue of largest magnitude is positive")
     else:
-        ctx.violated(h, sg[0] if sg else h.node, "abs-max sign indicator is not sign(w_max + w_min)")
+        raise AnalysisError("_sign_abs_max_principal: value %r not recognised as sign(w_max + w_min)" % (v,))
 
 
 # =========================================================================== variants
